@@ -1,5 +1,4 @@
-import A2Verif.Lemmas.TrackFormat
-import A2Verif.Model.TrackImg
+import A2Verif.Lemmas.TrackImgCreate2
 /-!
 # C08, bit-level half: formatted tracks and whole NIB / WOZ images
 
@@ -21,19 +20,6 @@ open A2Verif.Model.Track A2Verif.Model.Nibble A2Verif.Model.TrackImg
 
 /-! ## 1. the formatter establishes the invariant -/
 
-/-- the track the formatter hands back: `bit_count` bits, every one written, pointer at 0 -/
-theorem formatTrack_bits (f : Fmt) (hs : 8 ≤ f.syncBits) (vol trk : Nat) (ids : List Nat) (t0 : Trk)
-    (h0 : t0.bits.length = f.bitCount ids.length) (hp0 : t0.pos = 0) :
-    (formatTrack f vol trk ids t0).bits = trackW f vol trk ids ∧ (formatTrack f vol trk ids t0).pos = 0 := by
-  have hl := trackW_length f hs vol trk ids
-  have hn : 0 < f.bitCount ids.length := by unfold Fmt.bitCount; omega
-  rw [formatTrack_eq]
-  constructor
-  · have := writeBits_bits (trackW f vol trk ids) t0 t0.bits [] (by simp) (by rw [h0, hl])
-    simpa using this
-  · have := writeBits_posAt (trackW f vol trk ids) t0 (f.bitCount ids.length) 0 ⟨h0, hn, by rw [hp0]; simp⟩
-    rw [this.2.2, hl]; simp
-
 /-- C08/track, gap (a) of the design: **`Formatted` is established by the formatter.**  For every volume
 and track number, every list of pairwise different sector addresses (at most 32), 6&2 or 5&3, sync bytes of
 8, 9 or 10 (any ≥ 8) bits: the track `format` produces — started from ANY buffer content — is in state
@@ -54,8 +40,8 @@ theorem format_track_formatted (f : Fmt) (hs : 8 ≤ f.syncBits) (vol trk : Nat)
 /-- the sector addresses of the two standard formats, last one apart -/
 theorem secIds_split (six : Bool) :
     secIds six = (secIds six).take ((secIds six).length - 1) ++ [if six then 15 else 3] ∧
-    (∀ i ∈ secIds six, i < 256) ∧ (secIds six).Nodup ∧ (secIds six).length = (if six then 16 else 13) := by
-  cases six <;> decide
+    (∀ i ∈ secIds six, i < 256) ∧ (secIds six).Nodup ∧ (secIds six).length = (if six then 16 else 13) :=
+  secIds_parts six
 
 /-- C08/track: `format_std16_track` (6&2, ids `0..15`) and `format_std13_track` (5&3, ids in
 `DOS32_PHYSICAL` order, no data fields) establish `GFmt`, for NIB (`sync = 8`) and WOZ (`sync = 10 / 9`)
@@ -214,5 +200,227 @@ theorem fresh_track_read_after_write (six : Bool) (sync m vol trk : Nat) (hs : 8
     · exact gdecRes_enc ⟨true, sync, m⟩ (List.replicate 256 0) (List.length_replicate ..)
         (by intro x hx; rw [List.eq_of_mem_replicate hx]; decide)
   rw [this]
+
+/-! ## 3. whole images: NIB, WOZ1, WOZ2
+
+`TrackImg` (`Model/TrackImg.lean`) is the image as the Rust holds it: one byte buffer with all track
+buffers, TMAP, TRKS entries (WOZ1: bit count; WOZ2: starting block, block count, bit count), the carried
+`head_coords.bit_ptr`.  `readSector`/`writeSector` choose the track buffer through `locate` (TMAP quarter
+track lookup, TRKS entry checks, block arithmetic) exactly as `get_trk_idx`/`get_trk_ref`/`get_trk_bits_rng`.
+
+`Holds img kind six vol m`: the image satisfies the invariant `ImgInv` (every track buffer is canonically a
+formatted track, all tracks have the same shape, the carried head position is a cell boundary common to all
+tracks) and sector `s` of track `t` decodes to `m t s`. -/
+
+def Holds (img : TrackImg) (kind : ImgKind) (six : Bool) (vol : Nat) (m : Nat → Nat → List Nat) : Prop :=
+  ∃ o gaps secs a c0 k,
+    ImgInv img (offsOf kind) (capOf kind) (nOf kind six) vol o gaps (secIds six) secs a c0 k ∧
+    fmtOf img (capOf kind) = fOf kind six ∧
+    ∀ t, t < 35 → ∀ s ∈ secs t, gdecRes (fOf kind six) s.fld = .ok (m t s.id)
+
+/-- C08/image, the TMAP condition: `TMap::create` sends every whole track to its own TRKS entry (the lookup
+of `get_trk_idx` succeeds at the whole-track slot itself), hence the lookup is injective on whole tracks. -/
+theorem tmap_injective_on_whole_tracks :
+    (∀ t : Fin 35, getTrkIdx tmapCreate t.val = .ok t.val) ∧
+    (∀ t u i, t < 35 → u < 35 → getTrkIdx tmapCreate t = .ok i → getTrkIdx tmapCreate u = .ok i → t = u) :=
+  ⟨tmapCreate_lookup, fun t u i ht hu => tmapCreate_injective t u i ht hu⟩
+
+/-- C08/image, "distinct tracks never share cells": in a created image every whole track `t < 35` is
+located (through TMAP and TRKS for WOZ) at its own buffer of `capOf kind` bytes; the 35 buffers lie inside
+the image bytes and are pairwise disjoint. -/
+theorem create_layout (kind : ImgKind) (six : Bool) (vol : Nat) :
+    Layout (create Trk kind six vol) (offsOf kind) (capOf kind) (nOf kind six) :=
+  layout_create kind six vol
+
+/-- C08/image, gap (d) of the design, part 1: **`create` establishes the image invariant** for NIB, WOZ1 and
+WOZ2, 16 sectors 6&2 and 13 sectors 5&3, every volume number; every sector of every track reads as 256
+zeros. -/
+theorem create_holds (kind : ImgKind) (six : Bool) (vol : Nat) (hv : vol < 256) :
+    Holds (create Trk kind six vol) kind six vol (fun _ _ => List.replicate 256 0) := by
+  obtain ⟨o, gaps, secs0, a, c0, k, inv, _, hfl⟩ := create_inv kind six vol hv
+  refine ⟨o, gaps, _, a, c0, k, inv, fmtOf_create kind six vol, ?_⟩
+  intro t _ s hs
+  rw [hfl s hs]
+  unfold fld0
+  cases h6 : (fOf kind six).six
+  · rfl
+  · have := gdecRes_enc (fOf kind six) (List.replicate 256 0) (List.length_replicate ..)
+      (by intro x hx; rw [List.eq_of_mem_replicate hx]; decide)
+    simp only [encNibs, h6, if_true] at this
+    exact this
+
+/-- C08/image, "for every valid (track, sector): what is read is what the image holds; a read changes no
+byte": `read_sector(cyl, 0, sec)` for `cyl < 35` and `sec` a sector address of the format returns `m cyl sec`,
+the image bytes are unchanged, and `Holds` again (the carried head position moved). -/
+theorem image_read (img : TrackImg) (kind : ImgKind) (six : Bool) (vol : Nat) (m : Nat → Nat → List Nat)
+    (h : Holds img kind six vol m) (cyl sec : Nat) (hc : cyl < 35) (hs : sec ∈ secIds six) :
+    ∃ img', A2Verif.Model.TrackImg.readSector Trk img cyl 0 sec = (.ok (m cyl sec), img') ∧ img'.bytes = img.bytes ∧
+      Holds img' kind six vol m := by
+  obtain ⟨o, gaps, secs, a, c0, k, inv, hf, hm⟩ := h
+  obtain ⟨tgt, htm, hid, img', a', c0', k', hr, hb, inv'⟩ := img_read inv cyl hc sec hs
+  rw [hf, hm cyl hc tgt htm, hid] at hr
+  refine ⟨img', hr, hb, o, gaps, secs, a', c0', k', inv', ?_, hm⟩
+  have : fmtOf img' (capOf kind) = fmtOf img (capOf kind) := by
+    have h1 := inv'.lay.loc 0 (by omega)
+    have h2 := inv.lay.loc 0 (by omega)
+    -- kind and six are not touched by a read: compare through the definition of `readSector`
+    have hk : img'.kind = img.kind ∧ img'.six = img.six := by
+      have e := congrArg Prod.snd hr
+      rw [readSector_eq inv.lay cyl sec hc (by
+        have := (sector_of_id inv cyl hc sec hs); obtain ⟨_, _, _, h⟩ := this; omega)] at e
+      simp only at e
+      split at e <;> (subst e; exact ⟨rfl, rfl⟩)
+    unfold fmtOf; rw [hk.1, hk.2]
+  rw [this, hf]
+
+theorem quant_props (dat : List Nat) (hb : ∀ x ∈ dat, x < 256) : (quant dat).length = 256 ∧ ∀ x ∈ quant dat, x < 256 := by
+  constructor
+  · simp only [quant, List.length_take, List.length_append, List.length_replicate]; omega
+  · intro x hx
+    have := List.mem_of_mem_take hx
+    rcases List.mem_append.1 this with h | h
+    · exact hb x h
+    · rw [List.eq_of_mem_replicate h]; decide
+
+/-- C08/image, gap (d), part 2: **read-after-write and frame across the whole image.**  `write_sector(cyl, 0,
+sec, dat)` for `cyl < 35`, `sec` a sector address of the format, any data (padded with zeros / cut to 256
+bytes): it succeeds; no byte of the image outside the buffer of track `cyl` changes (frame across tracks,
+on the raw bits); afterwards the image holds `quant dat` at `(cyl, sec)` and at EVERY other (track, sector)
+what it held before — so distinct (track, sector) never alias, and by `image_read` a later read of
+`(cyl, sec)` returns the data, any other read its old value, for any order of operations (the statement is
+about `Holds`, which every operation re-establishes). -/
+theorem image_write (img : TrackImg) (kind : ImgKind) (six : Bool) (vol : Nat) (m : Nat → Nat → List Nat)
+    (h : Holds img kind six vol m) (cyl sec : Nat) (hc : cyl < 35) (hs : sec ∈ secIds six) (dat : List Nat)
+    (hb : ∀ x ∈ dat, x < 256) :
+    ∃ img', A2Verif.Model.TrackImg.writeSector Trk img cyl 0 sec dat = (.ok (), img') ∧
+      img'.bytes.length = img.bytes.length ∧
+      (∀ i, i < offsOf kind cyl ∨ offsOf kind cyl + capOf kind ≤ i → img'.bytes[i]? = img.bytes[i]?) ∧
+      Holds img' kind six vol (fun t s => if t = cyl ∧ s = sec then quant dat else m t s) := by
+  obtain ⟨o, gaps, secs, a, c0, k, inv, hf, hm⟩ := h
+  obtain ⟨tgt, htm, hid, img', As', Bs', hsecs, hw, hl, hfr, inv'⟩ := img_write inv cyl hc sec hs dat
+  have hkeep : img'.kind = img.kind ∧ img'.six = img.six := by
+    have e := congrArg Prod.snd hw
+    rw [writeSector_eq inv.lay cyl sec dat hc (by
+      have := (sector_of_id inv cyl hc sec hs); obtain ⟨_, _, _, h⟩ := this; omega)] at e
+    simp only at e
+    split at e <;> (subst e; exact ⟨rfl, rfl⟩)
+  have hf' : fmtOf img' (capOf kind) = fOf kind six := by rw [← hf]; unfold fmtOf; rw [hkeep.1, hkeep.2]
+  rw [hf] at inv'
+  refine ⟨img', hw, hl, hfr, o, gaps, _, _, _, _, inv', hf', ?_⟩
+  intro t ht s hs'
+  have hq := quant_props dat hb
+  by_cases hte : t = cyl
+  · subst hte
+    simp only [setSecs, if_true, List.mem_append, List.mem_cons] at hs'
+    have hnd : ((As' ++ tgt :: Bs').map (·.id)).Nodup := by rw [← hsecs, inv.idsEq t ht]; exact inv.nodup
+    simp only [List.map_append, List.map_cons, List.nodup_append, List.nodup_cons, List.mem_map, List.mem_cons] at hnd
+    rcases hs' with h | h | h
+    · have hne : s.id ≠ sec := by
+        rw [← hid]; intro he
+        exact hnd.2.2 s.id ⟨s, h, rfl⟩ tgt.id (Or.inl rfl) he
+      simp only [hne, and_false, if_false]
+      exact hm t ht s (by rw [hsecs]; simp [h])
+    · subst h
+      simp only [hid, and_self, if_true]
+      exact gdecRes_enc (fOf kind six) (quant dat) hq.1 hq.2
+    · have hne : s.id ≠ sec := by
+        rw [← hid]; intro he
+        exact hnd.2.1.1 ⟨s, h, he⟩
+      simp only [hne, and_false, if_false]
+      exact hm t ht s (by rw [hsecs]; simp [h])
+  · simp only [setSecs, if_neg hte] at hs'
+    simp only [hte, false_and, if_false]
+    exact hm t ht s hs'
+
+/-- C08/image, "invalid addresses are refused": head ≠ 0, track ≥ 35, sector > 255, or a sector number that
+is no sector address of the format (16..255 / 13..255) — read and write return an error and the image,
+including the carried head position, is unchanged. -/
+theorem image_invalid_refused (img : TrackImg) (kind : ImgKind) (six : Bool) (vol : Nat) (m : Nat → Nat → List Nat)
+    (h : Holds img kind six vol m) (cyl head sec : Nat) (dat : List Nat)
+    (hbad : 1 ≤ head ∨ 35 ≤ cyl ∨ 255 < sec ∨ (cyl < 35 ∧ sec ∉ secIds six)) :
+    (∃ r, A2Verif.Model.TrackImg.readSector Trk img cyl head sec = (r, img) ∧ (r = .err ∨ r = .nib .sectorNotFound)) ∧
+    (∃ r, A2Verif.Model.TrackImg.writeSector Trk img cyl head sec dat = (r, img) ∧ (r = .err ∨ r = .nib .sectorNotFound)) := by
+  obtain ⟨o, gaps, secs, a, c0, k, inv, _, _⟩ := h
+  exact img_refuse inv cyl head sec dat hbad
+
+/-- C08/image, everything together on a freshly created image: for NIB / WOZ1 / WOZ2, 16 or 13 sectors, any
+volume; any two DIFFERENT valid addresses `(c, s) ≠ (c', s')` and any data: write `(c, s)`, then a read of
+`(c', s')` (on the same or another track, with the head position the write left behind) still returns 256
+zeros, and a read of `(c, s)` after that returns the data written. -/
+theorem fresh_image_read_after_write (kind : ImgKind) (six : Bool) (vol : Nat) (hv : vol < 256)
+    (c s c' s' : Nat) (hc : c < 35) (hs : s ∈ secIds six) (hc' : c' < 35) (hs' : s' ∈ secIds six)
+    (hne : ¬ (c' = c ∧ s' = s)) (dat : List Nat) (hb : ∀ x ∈ dat, x < 256) :
+    ∃ i1 i2 i3, A2Verif.Model.TrackImg.writeSector Trk (create Trk kind six vol) c 0 s dat = (.ok (), i1) ∧
+      A2Verif.Model.TrackImg.readSector Trk i1 c' 0 s' = (.ok (List.replicate 256 0), i2) ∧
+      A2Verif.Model.TrackImg.readSector Trk i2 c 0 s = (.ok (quant dat), i3) := by
+  obtain ⟨i1, w, _, _, h1⟩ := image_write _ kind six vol _ (create_holds kind six vol hv) c s hc hs dat hb
+  obtain ⟨i2, r2, _, h2⟩ := image_read i1 kind six vol _ h1 c' s' hc' hs'
+  obtain ⟨i3, r3, _, _⟩ := image_read i2 kind six vol _ h2 c s hc hs
+  simp only [hne, if_false] at r2
+  simp only [and_self, if_true] at r3
+  exact ⟨i1, i2, i3, w, r2, r3⟩
+
+/-! ### any order of operations -/
+
+inductive Op
+  | r (c s : Nat)
+  | w (c s : Nat) (d : List Nat)
+
+/-- a valid operation: whole track of the image, sector address of the format, byte data -/
+def Op.Valid (six : Bool) : Op → Prop
+  | .r c s => c < 35 ∧ s ∈ secIds six
+  | .w c s d => c < 35 ∧ s ∈ secIds six ∧ ∀ x ∈ d, x < 256
+
+/-- run a sequence of operations on the image (model of the Rust calls), collecting the results -/
+def runOps (img : TrackImg) : List Op → List (IRes (List Nat)) × TrackImg
+  | [] => ([], img)
+  | .r c s :: rest =>
+    let x := A2Verif.Model.TrackImg.readSector Trk img c 0 s
+    let y := runOps x.2 rest
+    (x.1 :: y.1, y.2)
+  | .w c s d :: rest =>
+    let x := A2Verif.Model.TrackImg.writeSector Trk img c 0 s d
+    let y := runOps x.2 rest
+    ((match x.1 with | .ok _ => .ok [] | .err => .err | .nib e => .nib e | .panic => .panic) :: y.1, y.2)
+
+/-- the same sequence on a reference map (track, sector) → 256 bytes -/
+def refOps (m : Nat → Nat → List Nat) : List Op → List (IRes (List Nat)) × (Nat → Nat → List Nat)
+  | [] => ([], m)
+  | .r c s :: rest => let y := refOps m rest; (.ok (m c s) :: y.1, y.2)
+  | .w c s d :: rest =>
+    let y := refOps (fun t x => if t = c ∧ x = s then quant d else m t x) rest
+    (.ok [] :: y.1, y.2)
+
+/-- C08/image, "under any order of reads and writes": every sequence of valid reads and writes on an image
+that `Holds m` (in particular a freshly created one, `create_holds`) — any tracks in any order, each
+operation starting from the head position the previous one left — returns exactly what the reference map
+returns, and the image then holds the reference map's final contents. -/
+theorem image_history (kind : ImgKind) (six : Bool) (vol : Nat) : ∀ (ops : List Op) (img : TrackImg)
+    (m : Nat → Nat → List Nat), Holds img kind six vol m → (∀ op ∈ ops, op.Valid six) →
+    (runOps img ops).1 = (refOps m ops).1 ∧ Holds (runOps img ops).2 kind six vol (refOps m ops).2 := by
+  intro ops
+  induction ops with
+  | nil => intro img m h _; exact ⟨rfl, h⟩
+  | cons op rest ih =>
+    intro img m h hv
+    have hvr : ∀ op ∈ rest, op.Valid six := fun o ho => hv o (by simp [ho])
+    cases op with
+    | r c s =>
+      obtain ⟨hc, hs⟩ : c < 35 ∧ s ∈ secIds six := hv (.r c s) (by simp)
+      obtain ⟨img', hr, _, h'⟩ := image_read img kind six vol m h c s hc hs
+      obtain ⟨i1, i2⟩ := ih img' m h' hvr
+      simp only [runOps, refOps, hr]
+      exact ⟨by rw [i1], i2⟩
+    | w c s d =>
+      obtain ⟨hc, hs, hb⟩ : c < 35 ∧ s ∈ secIds six ∧ ∀ x ∈ d, x < 256 := hv (.w c s d) (by simp)
+      obtain ⟨img', hw, _, _, h'⟩ := image_write img kind six vol m h c s hc hs d hb
+      obtain ⟨i1, i2⟩ := ih img' _ h' hvr
+      simp only [runOps, refOps, hw]
+      exact ⟨by rw [i1], i2⟩
+
+/-- non-vacuity of the image theorems: the hypotheses `Holds`, valid addresses, byte data are met -/
+example : Holds (create Trk .woz2 true 254) .woz2 true 254 (fun _ _ => List.replicate 256 0) ∧ 17 < 35 ∧
+    5 ∈ secIds true ∧ 12 ∈ secIds false ∧ ∀ x ∈ [1, 2, 255], x < 256 :=
+  ⟨create_holds .woz2 true 254 (by decide), by decide, by decide, by decide, by decide⟩
 
 end A2Verif.C08Track
